@@ -206,13 +206,17 @@ def handleMetadataPacket (h : Hdr) (closure : Bool) (cks size : Nat) (sname dnam
   modP fun p => { p with fileSize := some size }
   let p ← getP
   if p.remoteCfg.isNone then throw .noRemoteEntityCfg
-  if !p.metadataOnly then
+  else if !p.metadataOnly then
     modify fun s => { s with step := .RECEIVING_FILE_DATA }
     initVfsHandling (Fs.baseName (sname.getD ""))
+    if (← get).state = .idle then pure ()       -- the transaction was abandoned
+    else
+      let p ← getP
+      emitInd (.mdRecv p.tid h.src (if sname.isNone then none else some size) sname dname msgs)
   else
     modify fun s => { s with step := .TRANSFER_COMPLETION }
-  let p ← getP
-  emitInd (.mdRecv p.tid h.src (if sname.isNone then none else some size) sname dname msgs)
+    let p ← getP
+    emitInd (.mdRecv p.tid h.src (if sname.isNone then none else some size) sname dname msgs)
 
 /-- `_common_first_packet_handler` (dest.py:672-684) -/
 def commonFirstPacketHandler (env : Env) (h : Hdr) : DM Unit := do
@@ -442,7 +446,8 @@ def deferredLostSegmentHandling (env : Env) : DM Unit := do
     | some rc, some fse =>
       if p.trk.length = 0 && !p.metadataMissing then
         let _ ← checksumVerify
-        modify fun s => { s with step := .TRANSFER_COMPLETION, p := { s.p with deferredActive := false } }
+        if (← get).state = .idle then pure ()       -- the transaction was abandoned
+        else modify fun s => { s with step := .TRANSFER_COMPLETION, p := { s.p with deferredActive := false } }
       else
         match p.procTimer with
         | none =>
@@ -482,10 +487,11 @@ def fsmAdvancementAfterPacketsWereSent (env : Env) : DM Unit := do
   else if s.step = .SENDING_EOF_ACK_PDU then
     if !s.p.canceled && (s.p.trk.length > 0 || s.p.metadataMissing) then
       startDeferredLostSegmentHandling env
-    else
-      if !s.p.canceled then
-        let _ ← checksumVerify
-      modify fun s => { s with step := .TRANSFER_COMPLETION }
+    else if !s.p.canceled then
+      let _ ← checksumVerify
+      if (← get).state = .idle then pure ()         -- the transaction was abandoned
+      else modify fun s => { s with step := .TRANSFER_COMPLETION }
+    else modify fun s => { s with step := .TRANSFER_COMPLETION }
 
 /-- `_check_limit_handling` (dest.py:1128-1139) -/
 def checkLimitHandling (env : Env) : DM Unit := do
@@ -497,6 +503,7 @@ def checkLimitHandling (env : Env) : DM Unit := do
     if t.timedOut env.now then
       if ← checksumVerify then
         fileTransferCompleteTransition
+      else if (← get).state = .idle then pure ()     -- the transaction was abandoned
       else
         let p ← getP
         if p.checkCount + 1 ≥ rc.chkLim then
